@@ -332,21 +332,32 @@ def check_variable_identity(repo: Repo, rep: Report) -> None:
                 return Obj(["Backend"], add_constraint=lambda c: log.append(("add", c)),
                            solve=lambda: (log.append(("solve",)), verdict)[1], name="backend")
 
-            vars_, cons = [Tag("v0"), Tag("v1")], [Tag("c0"), Tag("c1"), Tag("c2")]
-            selfo = solver_self(cw, variables=vars_, constraints=cons, is_answer_key=[False, False], name="self")
-            r = fde.FunctionValue(fn, ev, genv, self_obj=selfo)(backend_type)
-            news = [x for x in log if x[0] == "new"]
-            added: List[Any] = []
-            for x in log:
-                if x[0] == "add":
-                    added.extend(x[1] if isinstance(x[1], list) else [x[1]])
-            order_ok = [x[0] for x in log if x[0] in ("new", "solve")] == ["new", "solve"] and log.index(("solve",)) > max(
-                [i for i, x in enumerate(log) if x[0] == "add"], default=-1)
-            if r is verdict and len(news) == 1 and list(news[0][1]) == vars_ and added == cons and order_ok and not selfo.stores:
-                rep.ok("VID-3", f"{meth}: fresh backend over all variables, all constraints added before one solve(), verdict returned unchanged")
+            # every combination of 0 / 1 / 2 variables and 0 / 1 / 3 constraints: a solver without variables can still hold
+            # (constant) constraints, and its verdict is the backend's all the same
+            bad = None
+            for nv, nc in [(2, 3), (0, 1), (0, 3), (0, 0), (1, 1), (1, 3), (1, 0), (2, 1), (2, 0)]:
+                log.clear()
+                vars_, cons = [Tag(f"v{i}") for i in range(nv)], [Tag(f"c{i}") for i in range(nc)]
+                selfo = solver_self(cw, variables=vars_, constraints=cons, is_answer_key=[False] * nv, name="self")
+                r = fde.FunctionValue(fn, ev, genv, self_obj=selfo)(backend_type)
+                news = [x for x in log if x[0] == "new"]
+                added: List[Any] = []
+                for x in log:
+                    if x[0] == "add":
+                        added.extend(x[1] if isinstance(x[1], list) else [x[1]])
+                order_ok = [x[0] for x in log if x[0] in ("new", "solve")] == ["new", "solve"] and log.index(("solve",)) > max(
+                    [i for i, x in enumerate(log) if x[0] == "add"], default=-1)
+                if nc == 0 and r is True and not log and not selfo.stores:
+                    continue  # an empty program is satisfiable: answering True without a backend is a correct shortcut
+                if not (r is verdict and len(news) == 1 and list(news[0][1]) == vars_ and added == cons and order_ok and not selfo.stores):
+                    bad = (f"with {nv} variable(s) and {nc} constraint(s) the backend protocol differs: returned {r!r}, log {log!r}, "
+                           f"stores on self {selfo.stores!r}")
+                    break
+            if bad is None:
+                rep.ok("VID-3", f"{meth}: fresh backend over all variables, all constraints added before one solve(), verdict returned unchanged "
+                                "(0/1/2 variables x 0/1/3 constraints)")
             else:
-                rep.finding("VID-3", SOLVER_FILE, meth, f"{meth} body",
-                            f"backend protocol differs: returned {r!r}, log {log!r}, stores on self {selfo.stores!r}", fn.lineno)
+                rep.finding("VID-3", SOLVER_FILE, meth, f"{meth} body", bad, fn.lineno)
         except (Undecided, Raised) as ex:
             rep.undecide("VID-3", f"{meth}: {ex}")
 
